@@ -121,6 +121,11 @@ func (c *FnCtx) calleeSpec(common *ssa.CallCommon) *FuncSpec {
 
 func (c *FnCtx) calleeSpec0(common *ssa.CallCommon) *FuncSpec {
 	if obj := c.calleeObj(common); obj != nil {
+		if c.fn != nil && c.fn.Pkg != nil {
+			if s, ok := c.g.contracts.Funcs["externlocal::"+c.fn.Pkg.Pkg.Path()+"::"+objFullName(obj)]; ok {
+				return s
+			}
+		}
 		if s := c.g.lookupSpecForObj(obj); s != nil {
 			return s
 		}
@@ -501,6 +506,17 @@ func (c *FnCtx) applyContract(spec *FuncSpec, sig *types.Signature, names []stri
 	if k := strings.LastIndex(calleeName, "/"); k >= 0 {
 		calleeName = calleeName[k+1:]
 	}
+	if spec.Extern {
+		// an assumed contract (dependency, interface method, or the call-site view of a repository function)
+		var cls []string
+		for _, cl := range spec.Ensures {
+			cls = append(cls, "ensures "+cl.Text)
+		}
+		for _, ef := range spec.Effects {
+			cls = append(cls, "effect $"+strings.TrimPrefix(ef.Name, "$")+" := "+ef.Text)
+		}
+		c.g.note("assumed contract (extern, not verified) on %s: %s", spec.Name, strings.Join(cls, "; "))
+	}
 	for i, cl := range spec.Requires {
 		tv, err := c.evalSpec(cl.E, env)
 		if err != nil {
@@ -742,6 +758,20 @@ func (c *FnCtx) paramSpecFor(v ssa.Value) *ParamSpec {
 	}
 	if p, ok := v.(*ssa.Parameter); ok {
 		if ps, ok := c.spec.ParamSpecs[p.Name()]; ok {
+			return ps
+		}
+	}
+	// a closure calling a function-typed variable of the enclosing function (captured by reference in
+	// naive form, by value otherwise)
+	if u, ok := v.(*ssa.UnOp); ok {
+		if fv, ok := u.X.(*ssa.FreeVar); ok {
+			if ps, ok := c.spec.ParamSpecs[fv.Name()]; ok {
+				return ps
+			}
+		}
+	}
+	if fv, ok := v.(*ssa.FreeVar); ok {
+		if ps, ok := c.spec.ParamSpecs[fv.Name()]; ok {
 			return ps
 		}
 	}
